@@ -21,8 +21,10 @@ def _const_items_rejected(stderr, hdir):
         if not b.startswith("error"):
             continue
         head = b.split("\n")[0]
-        for m in re.finditer(r"src/bin/c10c\.rs:(\d+):", b):
-            name = item_at.get(int(m.group(1)))
+        names = [item_at.get(int(m.group(1))) for m in re.finditer(r"src/bin/c10c\.rs:(\d+):", b)]
+        names += re.findall(r"evaluation of `(\w+)` failed", b)
+        names += re.findall(r"\|\s*const_\w+!\((\w+),", b)
+        for name in names:
             if name and name in case_of and name not in seen:
                 seen.add(name)
                 out.append((case_of[name], "the const item %s of this case is rejected at compile time: %s" % (name, head[:300])))
